@@ -106,6 +106,19 @@ NEEDS = {
              "256 members whose column sums together exceed 255 before a bigger cluster widens the accumulator",
     "C20-b": "the new sample is rounded to 4 decimals before the comparison with the stored peak: needs two samples in the "
              "upper half of one 1e-4 GiB bucket, the later one smaller (the recorded peak decreases)",
+    "C03-c": "refine from a single .npy PATH fetches the split members in sorted order but labels them in cluster "
+             "order: needs a refinement after member lists stopped being ascending (second refine, or after a "
+             "shuffled recluster) with X given as a path",
+    "C04-c": "wide integer dtypes are read through a strided uint8 view of the FIRST byte: needs unpacked input as an "
+             "ndarray / .npy path with a big-endian multi-byte dtype (every fingerprint reads as zeros)",
+    "C06-c": "the midsection batch plan is re-balanced to the number of worker processes: needs more batches than "
+             "processes, not a multiple of them, and a bin size that changes (e.g. 12 file pairs, bin 3, 3 processes)",
+    "C07-c": "Tanimoto of two empty fingerprints becomes 1: needs an all-zero fingerprint and an all-zero centroid that "
+             "is not the first entry on its path (descent / split poles change)",
+    "C09-c": "_prepare_bf_to_buffer_dicts groups consecutive same-dtype clusters with groupby and overwrites: needs "
+             "recluster_inplace(shuffle=True) with a cluster of >= 256 members among smaller ones (clusters are dropped)",
+    "C10-c": "tolerance-diameter rejects when the merged statistic EQUALS the threshold: needs an exact tie (duplicates at "
+             "threshold 1.0, Tanimoto exactly 1/2 at threshold 0.5)",
     "C20-a": "the monitor overwrites max-rss.txt in place and truncates afterwards: needs the reader to run between "
              "the write of a shorter value and the truncate (or before the first write)",
 }
